@@ -220,41 +220,45 @@ Proof.
   - injection E as E1 E2. assert (ex = ey) by lia. congruence.
 Qed.
 
-Section F64Order.
+Section F64OrderGen.
   Variables (lg : spec_float -> spec_float -> spec_float) (ex : spec_float -> spec_float).
   Variables fmax_bits fmin_bits eps_bits step_bits : N.
   Let A := F64km lg ex fmax_bits fmin_bits eps_bits step_bits.
+  (* a class of values without NaN on which the rank is injective *)
+  Variable ok : spec_float -> Prop.
+  Hypothesis ok_nn : forall x, ok x -> is_nan x = false.
+  Hypothesis ok_inj : forall x y, ok x -> ok y -> rank x = rank y -> x = y.
 
   Definition fle (x y : spec_float) : Prop := lexle (rank x) (rank y).
 
-  Lemma fle_trans x y z : okv x -> okv y -> okv z -> fle x y -> fle y z -> fle x z.
+  Lemma fle_trans x y z : ok x -> ok y -> ok z -> fle x y -> fle y z -> fle x z.
   Proof. intros _ _ _. apply lexle_trans. Qed.
-  Lemma fle_antisym x y : okv x -> okv y -> fle x y -> fle y x -> x = y.
-  Proof. intros Hx Hy H1 H2. apply rank_inj; auto. now apply lexle_antisym. Qed.
+  Lemma fle_antisym x y : ok x -> ok y -> fle x y -> fle y x -> x = y.
+  Proof. intros Hx Hy H1 H2. apply ok_inj; auto. now apply lexle_antisym. Qed.
   (* the reverse order, for the minima *)
   Definition fge (x y : spec_float) : Prop := fle y x.
-  Lemma fge_trans x y z : okv x -> okv y -> okv z -> fge x y -> fge y z -> fge x z.
+  Lemma fge_trans x y z : ok x -> ok y -> ok z -> fge x y -> fge y z -> fge x z.
   Proof. unfold fge. intros _ _ _ H1 H2. eapply lexle_trans; eauto. Qed.
-  Lemma fge_antisym x y : okv x -> okv y -> fge x y -> fge y x -> x = y.
+  Lemma fge_antisym x y : ok x -> ok y -> fge x y -> fge y x -> x = y.
   Proof. unfold fge. intros Hx Hy H1 H2. apply fle_antisym; auto. Qed.
 
-  Lemma cmp_eq_rank x y : okv x -> okv y -> cmp_eq A x y = lexcmp (rank x) (rank y).
+  Lemma cmp_eq_rank x y : ok x -> ok y -> cmp_eq A x y = lexcmp (rank x) (rank y).
   Proof.
     intros Hx Hy. unfold cmp_eq. cbn [A F64km k_cmp]. unfold fcmp.
-    rewrite SFcompare_rank; auto using okv_not_nan.
+    rewrite SFcompare_rank; auto using ok_nn.
   Qed.
-  Lemma klt_rank x y : okv x -> okv y -> klt A x y = true <-> ~ fle y x.
+  Lemma klt_rank x y : ok x -> ok y -> klt A x y = true <-> ~ fle y x.
   Proof.
-    intros Hx Hy. unfold klt. cbn [A F64km k_cmp]. unfold fcmp. rewrite SFcompare_rank; auto using okv_not_nan.
+    intros Hx Hy. unfold klt. cbn [A F64km k_cmp]. unfold fcmp. rewrite SFcompare_rank; auto using ok_nn.
     unfold fle. rewrite <- lexcmp_lt. destruct (lexcmp (rank x) (rank y)); split; intros H; congruence.
   Qed.
-  Lemma kgt_rank x y : okv x -> okv y -> kgt A x y = true <-> ~ fle x y.
+  Lemma kgt_rank x y : ok x -> ok y -> kgt A x y = true <-> ~ fle x y.
   Proof.
-    intros Hx Hy. unfold kgt. cbn [A F64km k_cmp]. unfold fcmp. rewrite SFcompare_rank; auto using okv_not_nan.
+    intros Hx Hy. unfold kgt. cbn [A F64km k_cmp]. unfold fcmp. rewrite SFcompare_rank; auto using ok_nn.
     unfold fle. rewrite <- lexcmp_gt. destruct (lexcmp (rank x) (rank y)); split; intros H; congruence.
   Qed.
 
-  Lemma max_op_selects : selects fle okv (max_op A).
+  Lemma max_op_selects : selects fle ok (max_op A).
   Proof.
     intros a b Ha Hb. unfold max_op. rewrite cmp_eq_rank; auto.
     destruct (lexcmp (rank a) (rank b)) eqn:E.
@@ -267,7 +271,7 @@ Section F64Order.
       + destruct (lexle_total (rank a) (rank b)); tauto.
   Qed.
 
-  Lemma min_op_selects : selects fge okv (min_op A).
+  Lemma min_op_selects : selects fge ok (min_op A).
   Proof.
     intros a b Ha Hb. unfold min_op, fge. rewrite cmp_eq_rank; auto.
     destruct (lexcmp (rank a) (rank b)) eqn:E.
@@ -278,7 +282,7 @@ Section F64Order.
       + destruct (lexle_total (rank b) (rank b)); auto.
   Qed.
 
-  Lemma min_step_selects : selects fge okv (min_step A).
+  Lemma min_step_selects : selects fge ok (min_step A).
   Proof.
     intros a b Ha Hb. unfold min_step, fge.
     destruct (klt A b a) eqn:E.
@@ -291,7 +295,7 @@ Section F64Order.
       repeat split; auto. unfold fle. destruct (lexle_total (rank a) (rank a)); auto.
   Qed.
 
-  Lemma max_step_selects : selects fle okv (max_step A).
+  Lemma max_step_selects : selects fle ok (max_step A).
   Proof.
     intros a b Ha Hb. unfold max_step.
     destruct (klt A a b) eqn:E.
@@ -304,15 +308,15 @@ Section F64Order.
       repeat split; auto. unfold fle. destruct (lexle_total (rank a) (rank a)); auto.
   Qed.
 
-  Lemma fmin2_selects : selects fge okv (fmin2 A).
+  Lemma fmin2_selects : selects fge ok (fmin2 A).
   Proof.
-    intros a b Ha Hb. unfold fmin2. cbn [A F64km k_isnan]. rewrite (okv_not_nan a Ha).
+    intros a b Ha Hb. unfold fmin2. cbn [A F64km k_isnan]. rewrite (ok_nn a Ha).
     exact (min_step_selects a b Ha Hb).
   Qed.
 
-  Lemma fmax2_selects : selects fle okv (fmax2 A).
+  Lemma fmax2_selects : selects fle ok (fmax2 A).
   Proof.
-    intros a b Ha Hb. unfold fmax2. cbn [A F64km k_isnan]. rewrite (okv_not_nan a Ha).
+    intros a b Ha Hb. unfold fmax2. cbn [A F64km k_isnan]. rewrite (ok_nn a Ha).
     destruct (kgt A b a) eqn:E.
     - apply kgt_rank in E; auto. repeat split; auto; unfold fle in *.
       + destruct (lexle_total (rank a) (rank b)); tauto.
@@ -323,19 +327,45 @@ Section F64Order.
       repeat split; auto. unfold fle. destruct (lexle_total (rank a) (rank a)); auto.
   Qed.
 
+
+  Lemma max_indep xs : Forall ok xs -> forall t1 t2, tree_reduce (max_op A) t1 xs = tree_reduce (max_op A) t2 xs.
+  Proof. intros H t1 t2. now apply (tree_reduce_indep fle ok fle_trans fle_antisym (max_op A) max_op_selects). Qed.
+  Lemma min_indep xs : Forall ok xs -> forall t1 t2, tree_reduce (min_op A) t1 xs = tree_reduce (min_op A) t2 xs.
+  Proof. intros H t1 t2. now apply (tree_reduce_indep fge ok fge_trans fge_antisym (min_op A) min_op_selects). Qed.
+End F64OrderGen.
+
+Definition okv' (x : spec_float) : Prop := val_ok_neg_f64 x = true.
+Lemma okv'_not_nan x : okv' x -> is_nan x = false.
+Proof. destruct x; cbn; auto; discriminate. Qed.
+Lemma rank_inj' x y : okv' x -> okv' y -> rank x = rank y -> x = y.
+Proof.
+  unfold okv'. destruct x as [sx|sx| |sx mx ex], y as [sy|sy| |sy my ey]; cbn [val_ok_neg_f64 rank]; intros Hx Hy E;
+    try discriminate; try (destruct sx); try (destruct sy); try discriminate; try reflexivity; try congruence.
+  - injection E as E1 E2. assert (ex = ey) by lia. congruence.
+Qed.
+
+Section F64Order.
+  Variables (lg : spec_float -> spec_float -> spec_float) (ex : spec_float -> spec_float).
+  Variables fmax_bits fmin_bits eps_bits step_bits : N.
+  Let A := F64km lg ex fmax_bits fmin_bits eps_bits step_bits.
   Lemma forallb_okv xs : forallb val_ok_f64 xs = true -> Forall okv xs.
   Proof. intros H. apply Forall_forall. intros x Hx. rewrite forallb_forall in H. exact (H x Hx). Qed.
 
-  Theorem max_decided_f64 : max_decided A val_ok_f64.
+  Lemma forallb_okv' xs : forallb val_ok_neg_f64 xs = true -> Forall okv' xs.
+  Proof. intros H. apply Forall_forall. intros x Hx. rewrite forallb_forall in H. exact (H x Hx). Qed.
+
+  Theorem max_decided_f64 : max_decided A cmp_ok_f64.
   Proof.
-    intros xs H t1 t2. apply (tree_reduce_indep fle okv fle_trans fle_antisym (max_op A) max_op_selects).
-    now apply forallb_okv.
+    intros xs H t1 t2. unfold cmp_ok_f64 in H. apply orb_prop in H. destruct H as [H|H].
+    - apply (max_indep lg ex fmax_bits fmin_bits eps_bits step_bits okv okv_not_nan rank_inj). now apply forallb_okv.
+    - apply (max_indep lg ex fmax_bits fmin_bits eps_bits step_bits okv' okv'_not_nan rank_inj'). now apply forallb_okv'.
   Qed.
 
-  Theorem min_decided_f64 : min_decided A val_ok_f64.
+  Theorem min_decided_f64 : min_decided A cmp_ok_f64.
   Proof.
-    intros xs H t1 t2. apply (tree_reduce_indep fge okv fge_trans fge_antisym (min_op A) min_op_selects).
-    now apply forallb_okv.
+    intros xs H t1 t2. unfold cmp_ok_f64 in H. apply orb_prop in H. destruct H as [H|H].
+    - apply (min_indep lg ex fmax_bits fmin_bits eps_bits step_bits okv okv_not_nan rank_inj). now apply forallb_okv.
+    - apply (min_indep lg ex fmax_bits fmin_bits eps_bits step_bits okv' okv'_not_nan rank_inj'). now apply forallb_okv'.
   Qed.
 
   Lemma column_okv D c xs :
@@ -374,10 +404,16 @@ Section F64Order.
     intros D xs H t1 t2. unfold tree_bbox. destruct xs as [|x0 xs0]; [reflexivity|].
     f_equal. f_equal.
     - apply map_ext. intros c.
-      apply (tree_col_indep fge fge_trans fge_antisym); auto using min_step_selects, fmin2_selects.
-      eapply column_okv; eauto.
+      apply (tree_col_indep fge (fge_trans okv) (fge_antisym okv rank_inj));
+        [ eapply min_step_selects; eauto using okv_not_nan, rank_inj
+        | eapply fmin2_selects; eauto using okv_not_nan, rank_inj
+        | exact fmax_ok
+        | eapply column_okv; eauto ].
     - apply map_ext. intros c.
-      apply (tree_col_indep fle fle_trans fle_antisym); auto using max_step_selects, fmax2_selects.
-      eapply column_okv; eauto.
+      apply (tree_col_indep fle (fle_trans okv) (fle_antisym okv rank_inj));
+        [ eapply max_step_selects; eauto using okv_not_nan, rank_inj
+        | eapply fmax2_selects; eauto using okv_not_nan, rank_inj
+        | exact fmin_ok
+        | eapply column_okv; eauto ].
   Qed.
 End F64Order.
